@@ -16,6 +16,7 @@ struct tape {
     uint64_t drawn[64];   /* words drawn since tape_mark() */
     unsigned ndrawn;
     uint64_t inits, frees, reseeds;
+    int unhealthy;        /* 1: init/reseed report that the system source could not seed the generator (values still flow) */
 };
 extern struct tape g_tape;
 void tape_reset(int kind, uint64_t seed);
